@@ -19,7 +19,7 @@ static GLOBAL: alloc::Counting = alloc::Counting;
 static HANGS: std::sync::atomic::AtomicUsize = std::sync::atomic::AtomicUsize::new(0);
 
 fn exec_line(line: &str) -> String {
-    if line.starts_with("R ") || line.starts_with("A ") || line.starts_with("F ") {
+    if line.starts_with("R ") || line.starts_with("A ") || line.starts_with("F ") || line.starts_with("P ") {
         exec_reader::run_case(line)
     } else if line.starts_with("I ") {
         exec_iter::run_case(line)
